@@ -832,7 +832,7 @@ func genC19(t *rapid.T) c19Case {
 		return c19Case{Mode: "regenerate"}
 	}
 	c := c19Case{Mode: "generate"}
-	c.FileName = rapid.SampledFrom([]string{"svc.proto", "a/b/svc.proto", "x_y/my_api.proto"}).Draw(t, "file")
+	c.FileName = rapid.SampledFrom([]string{"svc.proto", "a/b/svc.proto", "x_y/my_api.proto", "Main.proto", "Models/MMsvc.proto"}).Draw(t, "file")
 	c.Package = rapid.SampledFrom([]string{"", "pkg", "a.b.c", "my_pkg.v1"}).Draw(t, "package")
 	c.GoPackage = rapid.SampledFrom([]string{"example.com/foo/bar", "example.com/foo/bar;barpb", "./;main", "example.com/mod/sub/pkg;pkgv1"}).Draw(t, "gopkg")
 	ns := rapid.IntRange(0, 3).Draw(t, "nsvc")
